@@ -8,11 +8,16 @@ import (
 	"time"
 
 	sdkmath "cosmossdk.io/math"
+	codectypes "github.com/cosmos/cosmos-sdk/codec/types"
 	sdk "github.com/cosmos/cosmos-sdk/types"
+	authtx "github.com/cosmos/cosmos-sdk/x/auth/tx"
 	authtypes "github.com/cosmos/cosmos-sdk/x/auth/types"
 	banktypes "github.com/cosmos/cosmos-sdk/x/bank/types"
 	"github.com/ethereum/go-ethereum/common"
 	ethtypes "github.com/ethereum/go-ethereum/core/types"
+
+	evmtypes "github.com/EscanBE/evermint/v12/x/evm/types"
+	evmutils "github.com/EscanBE/evermint/v12/x/evm/utils"
 
 	"verif/harness/asm"
 	"verif/harness/world"
@@ -113,6 +118,9 @@ type TxSpec struct {
 	Fee      FeeKind `json:"fee,omitempty"`
 	GasLimit uint64  `json:"gas_limit,omitempty"` // 0 => DefaultGas(kind)
 	Nonce    uint64  `json:"nonce"`
+	// Value (decimal wei), when not empty, replaces the value the kind carries by default (magnitude dimension: any kind can be
+	// sent with any amount of money; what happens to it - arrives, stays with the contract, comes back - is the kind's behaviour).
+	Value string `json:"value,omitempty"`
 }
 
 func (s TxSpec) String() string {
@@ -229,6 +237,13 @@ func BuildTx(w *world.World, s TxSpec, b *big.Int) []byte {
 			set(AddrSuicideTo(r))
 		}
 	}
+	if s.Value != "" {
+		v, ok := new(big.Int).SetString(s.Value, 10)
+		if !ok || v.Sign() < 0 {
+			panic("bad value " + s.Value)
+		}
+		value = v
+	}
 	nonce := s.Nonce
 	if s.Kind == KBadNonce {
 		nonce += 5
@@ -247,9 +262,80 @@ func BuildTx(w *world.World, s TxSpec, b *big.Int) []byte {
 	case FDynTip1Cap:
 		td = &ethtypes.DynamicFeeTx{ChainID: big.NewInt(world.EvmChainID), Nonce: nonce, GasTipCap: Gwei, GasFeeCap: two, Gas: gas, To: to, Value: value, Data: data}
 	default:
-		panic("unknown fee kind " + s.Fee)
+		dyn, capOrPrice, tip, ok := s.Fee.Absolute()
+		if !ok {
+			panic("unknown fee kind " + s.Fee)
+		}
+		if dyn {
+			td = &ethtypes.DynamicFeeTx{ChainID: big.NewInt(world.EvmChainID), Nonce: nonce, GasTipCap: tip, GasFeeCap: capOrPrice, Gas: gas, To: to, Value: value, Data: data}
+			if tip.Cmp(capOrPrice) > 0 {
+				// not a valid tx: the message constructor refuses it, so the envelope is put together by hand (as a hostile client would)
+				return wrapEthUnchecked(w, w.SignEth(a, td), a)
+			}
+		} else {
+			td = &ethtypes.LegacyTx{Nonce: nonce, GasPrice: capOrPrice, Gas: gas, To: to, Value: value, Data: data}
+		}
 	}
 	return w.EthTx(a, td)
+}
+
+// wrapEthUnchecked is world.WrapEthE without the validation of MsgEthereumTx.FromEthereumTx.
+func wrapEthUnchecked(w *world.World, tx *ethtypes.Transaction, from *world.Acct) []byte {
+	bz, err := tx.MarshalBinary()
+	if err != nil {
+		panic(err)
+	}
+	msg := &evmtypes.MsgEthereumTx{MarshalledTx: bz, From: from.Bech()}
+	b := w.Enc.TxConfig.NewTxBuilder()
+	if err := b.SetMsgs(msg); err != nil {
+		panic(err)
+	}
+	opt, err := codectypes.NewAnyWithValue(&evmtypes.ExtensionOptionsEthereumTx{})
+	if err != nil {
+		panic(err)
+	}
+	b.(authtx.ExtensionOptionsTxBuilder).SetExtensionOptions(opt)
+	b.SetGasLimit(tx.Gas())
+	b.SetFeeAmount(sdk.NewCoins(sdk.NewCoin(world.Denom, sdkmath.NewIntFromBigInt(evmutils.EthTxFee(tx)))))
+	out, err := w.Enc.TxConfig.TxEncoder()(b.GetTx())
+	if err != nil {
+		panic(err)
+	}
+	return out
+}
+
+// Absolute fee kinds (magnitude dimension): fee fields given in wei, independent of the base fee.
+//
+//	"legacy@<price>"       legacy tx with that gas price
+//	"dyn@<cap>/<tip>"      dynamic-fee tx with that fee cap and tip cap
+func FAbsLegacy(price *big.Int) FeeKind { return FeeKind("legacy@" + price.String()) }
+func FAbsDyn(feeCap, tip *big.Int) FeeKind {
+	return FeeKind("dyn@" + feeCap.String() + "/" + tip.String())
+}
+
+// Absolute decodes an absolute fee kind.
+func (f FeeKind) Absolute() (dyn bool, capOrPrice, tip *big.Int, ok bool) {
+	str := string(f)
+	switch {
+	case strings.HasPrefix(str, "legacy@"):
+		p, good := new(big.Int).SetString(str[len("legacy@"):], 10)
+		if !good || p.Sign() < 0 {
+			return false, nil, nil, false
+		}
+		return false, p, nil, true
+	case strings.HasPrefix(str, "dyn@"):
+		i := strings.IndexByte(str, '/')
+		if i < 0 {
+			return false, nil, nil, false
+		}
+		c, good1 := new(big.Int).SetString(str[len("dyn@"):i], 10)
+		t, good2 := new(big.Int).SetString(str[i+1:], 10)
+		if !good1 || !good2 || c.Sign() < 0 || t.Sign() < 0 {
+			return false, nil, nil, false
+		}
+		return true, c, t, true
+	}
+	return false, nil, nil, false
 }
 
 // EffectivePrice of a fee kind for base fee b.
@@ -264,6 +350,17 @@ func EffectivePrice(f FeeKind, b *big.Int) *big.Int {
 		p := new(big.Int).Add(b, Gwei)
 		if p.Cmp(two) > 0 {
 			p = two
+		}
+		return p
+	}
+	if dyn, capOrPrice, tip, ok := f.Absolute(); ok {
+		if !dyn {
+			return capOrPrice
+		}
+		// EIP-1559: min(fee cap, base fee + tip)
+		p := new(big.Int).Add(b, tip)
+		if p.Cmp(capOrPrice) > 0 {
+			p = new(big.Int).Set(capOrPrice)
 		}
 		return p
 	}
